@@ -162,6 +162,8 @@ def cli(argv=sys.argv, mode='output'):
     elif mode == 'string':
         return F2.to_dimacs()
     else:
+        if args.output is None:
+            raise OSError("the standard output is closed")
         F2.to_file(args.output, 'dimacs')
         # a full disk must show up here, not at interpreter shutdown
         args.output.flush()
@@ -208,7 +210,8 @@ def main():
         sys.exit(-1)
 
     # avoid signaling BrokenPipeError as whatnot
-    sys.stderr.close()
+    if sys.stderr is not None:
+        sys.stderr.close()
 
 
 if __name__ == '__main__':
